@@ -68,3 +68,80 @@ Proof.
   split; [intros; discriminate|]. split; [intros; discriminate|].
   intros c s H. inversion H; subst. split; vm_compute; discriminate.
 Qed.
+
+(** ** closedness: what [fi_load] returns is in the codec's domain (C13_load_only_valid) and its
+    guideline identifiers are distinct *)
+Lemma uint_le_bound : forall max z n, FI.uint_le max z = Some n -> n <= max.
+Proof.
+  intros max z n H. unfold FI.uint_le in H.
+  destruct ((0 <=? z) && (z <=? Z.of_N max))%Z eqn:E; [|discriminate]. inversion H; subst.
+  apply andb_true_iff in E. destruct E as [E1 E2]. apply Z.leb_le in E1, E2. lia.
+Qed.
+Lemma fi_mapM_Forall {A B} (f : A -> option B) (P : B -> Prop) :
+  (forall a b, f a = Some b -> P b) -> forall l l', FI.mapM f l = Some l' -> Forall P l'.
+Proof.
+  intros Hf. induction l as [|a l IH]; simpl; intros l' H; [inversion H; constructor|].
+  destruct (f a) as [b|] eqn:Ea; [|discriminate]. destruct (FI.mapM f l) as [r|] eqn:Er; [|discriminate].
+  inversion H; subst. constructor; eauto.
+Qed.
+
+Lemma build_wt : forall r i, FI.build r = Some i -> FI.info_wt i.
+Proof.
+  intros r i H. unfold FI.build in H.
+  repeat match type of H with (if ?c then None else _) = Some _ => destruct c; [discriminate|] end.
+  destruct (FI.omap (FI.mapM FI.gasp_of) (FI.r_hgasp r)) as [gasp|] eqn:Eg; [|discriminate].
+  destruct (FI.omap (FI.mapM FI.guide_of) (FI.r_hguides r)) as [gu|] eqn:Eu; [|discriminate].
+  destruct (FI.omap (FI.mapM (FI.uint_le FI.U8_MAX)) (FI.r_hselection r)) as [sel|] eqn:Es; [|discriminate].
+  destruct (FI.omap FI.class_of (FI.r_hclass r)) as [cls|] eqn:Ec; [|discriminate].
+  inversion H; subst i. clear H. unfold FI.info_wt. simpl. split; [|split].
+  - intros l ->. unfold FI.omap in Eg. destruct (FI.r_hgasp r) as [x|]; [|discriminate].
+    destruct (FI.mapM FI.gasp_of x) as [y|] eqn:Em; [|discriminate]. inversion Eg; subst y.
+    eapply fi_mapM_Forall; [|exact Em]. intros a b Hab. unfold FI.gasp_of in Hab.
+    destruct (forallb _ _); [|discriminate]. eapply uint_le_bound; eauto.
+  - intros l ->. unfold FI.omap in Es. destruct (FI.r_hselection r) as [x|]; [|discriminate].
+    destruct (FI.mapM (FI.uint_le FI.U8_MAX) x) as [y|] eqn:Em; [|discriminate]. inversion Es; subst y.
+    eapply fi_mapM_Forall; [|exact Em]. intros a b Hab. eapply uint_le_bound; eauto.
+  - intros c s ->. unfold FI.omap in Ec. destruct (FI.r_hclass r) as [x|]; [|discriminate].
+    destruct (FI.class_of x) as [y|] eqn:Em; [|discriminate]. inversion Ec; subst y. unfold FI.class_of in Em.
+    destruct (FI.mapM (FI.uint_le FI.U8_MAX) x) as [[|a [|b [|? ?]]]|] eqn:Ex; try discriminate.
+    inversion Em; subst. pose proof (fi_mapM_Forall _ (fun n => n <= FI.U8_MAX) (uint_le_bound FI.U8_MAX) _ _ Ex) as F.
+    inversion F as [|? ? Ha F']; subst. inversion F' as [|? ? Hb _]; subst. auto.
+Qed.
+
+Section Closed.
+Variables C O : Type.
+Variable inj : FI.raw -> C.
+Variable prj : C -> option FI.raw.
+
+Lemma info_real_closed : part_closed (P_info_real C O inj prj).
+Proof.
+  intros c si H. simpl in H. destruct (prj c) as [r|]; [|discriminate].
+  destruct (FI.fi_load r) as [i| |] eqn:El; try discriminate. inversion H; subst si. clear H.
+  change (wf_sinfo (of_info i)). unfold wf_sinfo. rewrite to_of_info. split; [reflexivity|].
+  unfold FI.fi_load in El. destruct (FI.decode r) as [i'|] eqn:Ed; [|discriminate].
+  destruct (FI.fi_validate i') as [[]| |] eqn:Ev; try discriminate. inversion El; subst i'.
+  unfold FI.decode in Ed. destruct (FI.build r) as [j|] eqn:Eb; [|discriminate].
+  destruct (FI.deser_angles_ok j) eqn:Ea; [|discriminate]. inversion Ed; subst j.
+  split; [eapply build_wt; eauto|]. split; [exact Ev|].
+  unfold FI.ser_angles_ok. unfold FI.deser_angles_ok, FI.opt_all in Ea. destruct (FI.i_guides i); exact Ea.
+Qed.
+End Closed.
+
+Lemma guide_ids_some_ids : forall (gs : list (rline * option str)),
+  FI.guide_ids (map (fun p : rline * option str => FI.Build_guide (fst p) (snd p)) gs) = some_ids (map snd gs).
+Proof.
+  induction gs as [|[l [id|]] gs IH]; simpl; [reflexivity| |]; unfold FI.guide_ids in *; simpl; rewrite IH; reflexivity.
+Qed.
+
+Lemma info_ok_real_nodup : forall D (i : finfo rinfo rline D),
+  info_ok_real i = true -> NoDup (some_ids (map FontRT.g_id (match i_guides i with Some l => l | None => [] end))).
+Proof.
+  intros D i H. unfold info_ok_real in H.
+  destruct (FI.fi_validate _) as [[]| |] eqn:Ev; try discriminate.
+  apply validate_iff_spec in Ev. destruct Ev as (_ & _ & Hnd & _).
+  destruct (i_guides i) as [gs|]; [|constructor]. simpl in Hnd.
+  assert (E : FI.i_guides (to_info (i_rest i, Some (map (fun g => (g_body g, FontRT.g_id g)) gs))) =
+              Some (map (fun p : rline * option str => FI.Build_guide (fst p) (snd p))
+                        (map (fun g => (g_body g, FontRT.g_id g)) gs))) by reflexivity.
+  specialize (Hnd _ E). cbv beta in Hnd. rewrite guide_ids_some_ids, map_map in Hnd. exact Hnd.
+Qed.
